@@ -645,3 +645,16 @@ def test_c18_rebinding_to_the_part_nested_first():
     h.u = box
     h.u = box.leaf
     assert type(h._xobject.u).__name__ == "Leaf8Data" and type(h.u).__name__ == "Leaf8"
+
+
+def test_c10_fitting_text_in_capacity_string():
+    class S9(xo.Struct):
+        name = xo.String
+        k = xo.Int64
+
+    s = S9(name=10, k=3)
+    s.name = "a" * 9  # 9 bytes + terminator: the 10 bytes of room
+    assert s.name == "a" * 9 and s.k == 3
+    with pytest.raises(ValueError):
+        s.name = "a" * 10
+    assert s.name == "a" * 9 and s.k == 3
